@@ -202,7 +202,7 @@ def gen_b(rng, tier):
                 items.append(sp)
                 expected["inner.lst[%d]" % i] = [sp, D5]
                 refs.append(("data", t, 2, "inner"))
-            files[D5 + "/ilist.txt"] = "\n".join(items) + "\n"
+            files[D5 + "/ilist.txt"] = ("\n".join(items) + "\n") if rng.random() < 0.6 else json.dumps(items)
             inner["lst"] = _spell(rng, D5 + "/ilist.txt", D1)
             refs.append(("cfg", D5 + "/ilist.txt", 2, "inner"))
         if rng.random() < 0.35:
@@ -245,9 +245,9 @@ def gen_b(rng, tier):
             expected["lst[%d]" % i] = [sp, D4]
             refs.append(("data", t, 1, "lst"))
         if inline:
-            main["lst"] = items
+            main["lst+" if rng.random() < 0.3 else "lst"] = items  # 'key+' inside a config appends to the (empty) default
         else:
-            files[D4 + "/list.txt"] = "\n".join(items) + "\n"
+            files[D4 + "/list.txt"] = ("\n".join(items) + "\n") if rng.random() < 0.6 else json.dumps(items)
             main["lst"] = _spell(rng, D4 + "/list.txt", D0)
             refs.append(("cfg", D4 + "/list.txt", 1, "lst"))
     files[D0 + "/main.yaml"] = json.dumps(main)
@@ -665,7 +665,7 @@ def b_run(sc, root, faults, judge_leaves):
                     mk = re.search(r'Parser key "([^"]+)"', msg)
                     ctx.violation(
                         "valid-nested-config-rejected",
-                        {"part": "b", "key": mk.group(1).split(".")[0] if mk else "?"},
+                        {"part": "b", "key": mk.group(1).split(".")[0] if mk else "?", "via": "append-key" if "lst+" in json.dumps(sc["world"]["files"]) else "plain"},
                         "every referenced file exists, yet %s failed: %s %s" % (b["op"]["entry"], o.brief(), msg[:500]),
                     )
                 else:
